@@ -1,4 +1,4 @@
-import Tw.Proofs.NetTick
+import Tw.Proofs.NetFail
 
 /-!
 # C20 — the multi-peer endpoint keeps peers isolated
@@ -106,6 +106,41 @@ theorem datagrams_only_to_concerned (env : Env) (net net' : Net) (op : Op) (r : 
     simp only [Out.for, List.filter_eq_nil_iff] at hf
     have := hf (b, pkt) hm
     simp at this
+
+/-- **No failure of its own.**  A call of the endpoint panics or fails to return only if it names
+a peer id that is not live (`peers[pid]`: "invalid pid"), or the single-address reference fails in
+exactly the same way on the projected call (its connection's own panic sites, the state assertions
+of `accept` / `reject` / `disconnect`, the id allocator with all 2^32 ids in use).  (Before the
+repair of D22 `Net::accept` could panic where the reference does not: `d22_legacy_witness`.) -/
+theorem failures_are_the_references (env : Env) (net : Net) (op : Op) (f : Fail)
+    (hi : PInv net.peers) (hok : opOk net op = true) (hs : step env net op = .error f) :
+    invalidPid net op = true ∨
+      ∃ a lop, projOp net a op = some lop ∧
+        refStep net.acceptConnections a env (slot net.peers a) lop = .error f :=
+  step_err hi hok hs
+
+/-- `accept` of a peer that is pending acceptance never hits the endpoint's own assertions: it
+fails only if the connection's handling of the canned connect request does (random source
+exhausted) -/
+theorem accept_of_pending_peer (env : Env) (net : Net) (pid : Nat) (p : Peer) (f : Fail)
+    (hl : lookup net.peers pid = some p) (hp : p.conn.state = .unconnected)
+    (hs : step env net (.accept pid) = .error f) :
+    Conn6.feed env p.conn (fun _ => some (connectPacket p.token)) = .error f
+      ∨ ∃ c o, Conn6.feed env p.conn (fun _ => some (connectPacket p.token)) = .ok (c, o)
+          ∧ (o.warns ≠ [] ∨ o.events ≠ []) := by
+  simp only [step, accept, modifyPeer, hl, peerAccept, hp] at hs
+  cases hf : Conn6.feed env p.conn (fun _ => some (connectPacket p.token)) with
+  | error e => simp [hf] at hs; left; rw [hs]
+  | ok v =>
+    obtain ⟨c, o⟩ := v
+    right
+    refine ⟨c, o, rfl, ?_⟩
+    simp only [hf] at hs
+    by_cases hw : o.warns = []
+    · by_cases he : o.events = []
+      · simp [hw, he] at hs
+      · exact Or.inr he
+    · exact Or.inl hw
 
 /-! ## isolation: histories (the refinement) -/
 
